@@ -52,6 +52,7 @@ func report(eng *Engine, prop, tier string, seed int, verif string, results []*f
 	var violations []string
 	nObl, nDis := 0, 0
 	nKnown, nUndecided, nCover, nCoverBad := 0, 0, 0, 0
+	unreachSeen := map[string]int{}
 	assumptions := map[string]bool{}
 	var samples []map[string]string
 	seenKnown := map[string]bool{}
@@ -89,6 +90,20 @@ func report(eng *Engine, prop, tier string, seed int, verif string, results []*f
 					if strings.HasSuffix(o.Name, "#cover{entry}") {
 						// contradictory preconditions: everything below would be vacuous
 						violations = append(violations, fmt.Sprintf("%s (preconditions unsatisfiable: vacuous contract)", o.Name))
+					} else {
+						// a block or return that cannot be reached under the contracts in force: unless it is one of
+						// the points recorded as unreachable on the unchanged tree, the obligations behind it are
+						// proved vacuously (an assumed clause is contradictory there)
+						k := coverKey(o.Name)
+						unreachSeen[k]++
+						if unreachSeen[k] > lock.Unreachable[k] {
+							or_.Class = "VIOLATION"
+							path := filepath.Join(replayDir, prop+"-"+safeFile(o.Name)+".txt")
+							os.MkdirAll(replayDir, 0o755)
+							os.WriteFile(path, []byte("vacuity: "+o.Name+" - this point of the function cannot be reached under the contracts in force (it can on the unchanged tree): an assumed clause is contradictory there and every obligation behind it is proved vacuously\n"), 0o644)
+							fmt.Printf("VIOLATION property=%s replay=%s obligation=%s status=unreachable no-failing-input-found\n", prop, path, o.Name)
+							violations = append(violations, o.Name+" [unreachable: vacuous proofs]")
+						}
 					}
 				} else {
 					or_.Class = "cover-ok"
